@@ -5,8 +5,11 @@ package symex
 // Close / Truncate, os.ReadFile, os.Remove): one table of path -> bytes per
 // path of the exploration, with the POSIX meaning of O_CREATE, O_TRUNC,
 // O_APPEND, O_EXCL and of writing at the current offset (an existing file
-// that is opened without O_TRUNC keeps its tail). Permissions, directories,
-// links and errors other than "does not exist" / "exists" are not modelled.
+// that is opened without O_TRUNC keeps its tail). Symbolic links to files (os.Symlink, followed by
+// Stat / ReadFile / WriteFile / OpenFile / Chtimes, not by Lstat / Remove) and
+// modification times (set by writes from the modelled clock, or by
+// os.Chtimes) are modelled; permissions, directories, links to directories
+// and errors other than "does not exist" / "exists" are not modelled.
 
 import (
 	"go/types"
@@ -24,11 +27,17 @@ type osFile struct {
 type osModel struct {
 	files map[string][]value
 	open  map[*value]*osFile
+	// mtimes holds the modification time (a time.Time value) of a file or of
+	// a link itself; links maps the path of a symbolic link to its target as
+	// given to os.Symlink (relative targets are resolved against the link's
+	// directory). A path is either a file or a link.
+	mtimes map[string]value
+	links  map[string]string
 }
 
 func (i *interpreter) osm() *osModel {
 	if i.osModelV == nil || i.osModelPath != i.ps {
-		i.osModelV = &osModel{files: map[string][]value{}, open: map[*value]*osFile{}}
+		i.osModelV = &osModel{files: map[string][]value{}, open: map[*value]*osFile{}, mtimes: map[string]value{}, links: map[string]string{}}
 		i.osModelPath = i.ps
 	}
 	return i.osModelV
@@ -43,12 +52,18 @@ func (i *interpreter) osErr(which string) value {
 func init() {
 	stubs["os.WriteFile"] = func(fr *frame, args []value) value {
 		m := fr.i.osm()
-		m.files[goString(args[0])] = append([]value{}, args[1].([]value)...)
+		p, ok := m.resolve(goString(args[0]))
+		if !ok {
+			return fr.i.osErr("notexist") // ELOOP really; a link cycle
+		}
+		m.files[p] = append([]value{}, args[1].([]value)...)
+		m.mtimes[p] = fr.i.osNow()
 		return iface{}
 	}
 	stubs["os.ReadFile"] = func(fr *frame, args []value) value {
 		i := fr.i
-		data, ok := i.osm().files[goString(args[0])]
+		rp, _ := i.osm().resolve(goString(args[0]))
+		data, ok := i.osm().files[rp]
 		if !ok {
 			return tuple{[]value(nil), i.osErr("notexist")}
 		}
@@ -58,16 +73,25 @@ func init() {
 		i := fr.i
 		m := i.osm()
 		p := goString(args[0])
+		if _, isLink := m.links[p]; isLink { // unlink removes the link itself
+			delete(m.links, p)
+			delete(m.mtimes, p)
+			return iface{}
+		}
 		if _, ok := m.files[p]; !ok {
 			return i.osErr("notexist")
 		}
 		delete(m.files, p)
+		delete(m.mtimes, p)
 		return iface{}
 	}
 	stubs["os.OpenFile"] = func(fr *frame, args []value) value {
 		i := fr.i
 		m := i.osm()
-		p := goString(args[0])
+		p, okr := m.resolve(goString(args[0]))
+		if !okr {
+			return tuple{(*value)(nil), i.osErr("notexist")}
+		}
 		flag := int(i.concreteInt(args[1]))
 		_, exists := m.files[p]
 		if !exists {
@@ -122,6 +146,7 @@ func init() {
 		}
 		f.off += len(data)
 		m.files[f.path] = cur
+		m.mtimes[f.path] = i.osNow()
 		return tuple{len(data), iface{}}
 	}
 	stubs["(*os.File).WriteString"] = func(fr *frame, args []value) value {
@@ -151,5 +176,110 @@ func init() {
 		f.closed = true
 		return iface{}
 	}
-	_ = types.Int
+	// os.Symlink(oldname, newname): newname must not exist; the link gets the
+	// current instant of the modelled clock as its own modification time.
+	stubs["os.Symlink"] = func(fr *frame, args []value) value {
+		i := fr.i
+		m := i.osm()
+		target, p := goString(args[0]), goString(args[1])
+		if _, ok := m.files[p]; ok {
+			return i.osErr("exist")
+		}
+		if _, ok := m.links[p]; ok {
+			return i.osErr("exist")
+		}
+		m.links[p] = target
+		m.mtimes[p] = i.osNow()
+		return iface{}
+	}
+	// os.Chtimes follows links (utimensat without AT_SYMLINK_NOFOLLOW).
+	stubs["os.Chtimes"] = func(fr *frame, args []value) value {
+		i := fr.i
+		m := i.osm()
+		p, ok := m.resolve(goString(args[0]))
+		if _, is := m.files[p]; !ok || !is {
+			return i.osErr("notexist")
+		}
+		m.mtimes[p] = args[2]
+		return iface{}
+	}
+	stat := func(follow bool) func(fr *frame, args []value) value {
+		return func(fr *frame, args []value) value {
+			i := fr.i
+			m := i.osm()
+			name := goString(args[0])
+			p := name
+			if follow {
+				var ok bool
+				if p, ok = m.resolve(name); !ok {
+					return tuple{iface{}, i.osErr("notexist")}
+				}
+			}
+			osPkg := i.sh.Pkgs["os"]
+			st := osPkg.Type("fileStat").Type()
+			v := zero(st)
+			s := v.(structure)
+			base := name
+			for k := len(name) - 1; k >= 0; k-- {
+				if name[k] == '/' {
+					base = name[k+1:]
+					break
+				}
+			}
+			s[0] = base
+			if tgt, isLink := m.links[p]; isLink {
+				s[1] = int64(len(tgt))
+				s[2] = uint32(os.ModeSymlink | 0777)
+			} else if data, isFile := m.files[p]; isFile {
+				s[1] = int64(len(data))
+				s[2] = uint32(0644)
+			} else {
+				return tuple{iface{}, i.osErr("notexist")}
+			}
+			mt, has := m.mtimes[p]
+			if !has {
+				mt = i.osNow()
+				m.mtimes[p] = mt
+			}
+			s[3] = mt
+			cell := value(s)
+			return tuple{iface{t: types.NewPointer(st), v: &cell}, iface{}}
+		}
+	}
+	stubs["os.Stat"] = stat(true)
+	stubs["os.Lstat"] = stat(false)
+}
+
+// resolve follows symbolic links (at most 8, like a small SYMLOOP_MAX); a
+// relative target is resolved against the directory of the link. ok = false
+// for a cycle. The result need not exist.
+func (m *osModel) resolve(p string) (string, bool) {
+	for n := 0; n < 8; n++ {
+		t, isLink := m.links[p]
+		if !isLink {
+			return p, true
+		}
+		if len(t) > 0 && t[0] == '/' {
+			p = t
+			continue
+		}
+		dir := ""
+		for k := len(p) - 1; k >= 0; k-- {
+			if p[k] == '/' {
+				dir = p[:k+1]
+				break
+			}
+		}
+		p = dir + t
+	}
+	return p, false
+}
+
+// osNow is the modelled clock's current instant (the same value time.Now()
+// returns in this clock epoch).
+func (i *interpreter) osNow() value {
+	if i.now == 0 {
+		i.now = 1
+	}
+	return i.nowValue()
 }
